@@ -287,6 +287,7 @@ def check(model, rep, tier):
               'a tracing backend touches variables only through get_state / '
               'set_state (and ldu for composites); composites enter the state '
               'only when their whole support is live')
-  rep.depends('C07', ['LV-CLOSURE'],
-              'variables read only by a closure stay in the outputs because '
-              'reaching function definitions keep them live')
+  rep.depends('C07', None,
+              'the state of a block is selected from the LIVE_VARS_IN / _OUT '
+              'annotations; variables read only by a closure stay in the outputs '
+              'because reaching function definitions keep them live')
